@@ -7,6 +7,13 @@ props = [json.loads(l) for l in open(os.path.join(HERE, "properties.jsonl"))]
 
 # id -> (level, technique, level text, level note, design ref)
 CLAIMS = {
+    "C19": ("other",
+            "TLA+ definition of the BSAVE / cassette containers (CimTools.tla) evaluated by TLC against the outputs of the built command binaries",
+            "Both commands are built from /repo and run on boundary and random inputs (image lengths incl. end address exactly "
+            "FFFF, offsets 0..FFFF in decimal and hex, default offset, names of length 0..12 and the default name); TLC compares "
+            "every output byte for byte with the container the specification defines.",
+            "A pure function: constant-level use of TLA+; inputs are generated, not exhaustive.",
+            "DESIGN.md section 3 C19"),
     "C18": ("model_checking",
             "TLC executes the BDOS stub (bytes read from the code) in the Z80 TLA+ specification + Run events of the real mini CP/M machine validated by TLC with a console contract",
             "TLC runs the BDOS stub in the specification exhaustively over short strings / byte values and checks the contract; "
